@@ -29,7 +29,7 @@ def run(ctx):
     ctx.proofs()
     lib = common.repobuild("asan")
     nevrun = common.cc_driver("nevrun", ["common/nevrun.c"], lib)
-    ok, log = common.ocaml_build()
+    ok, log = evaldiff.build_eval()
     if not ok:
         ctx.correspondence_broken("ocaml-build", log[-3000:])
         return
